@@ -6,7 +6,7 @@ id=$1; d=/verif/seeded/$id; prop=${id%%-*}
 export GOFLAGS=-mod=mod GOPROXY=off GOSUMDB=off GOTOOLCHAIN=local; unset GOWORK
 W=$(mktemp -d /tmp/srcXXXX); rmdir $W
 git -C /repo worktree add -q --detach $W HEAD || exit 2
-V=$(mktemp -d /tmp/srcvXXXX); cp /verif/known_findings.json $V/; mkdir -p $V/checker; ln -s /verif/checker/fixtures $V/checker/fixtures
+V=$(mktemp -d /tmp/srcvXXXX); cp /verif/known_findings.json /verif/reference_funcs.json $V/ 2>/dev/null; mkdir -p $V/checker; ln -s /verif/checker/fixtures $V/checker/fixtures
 applies=true; caught=""; rules=""
 if git -C $W apply $d/patch.diff 2>/dev/null; then
   # one process for all twenty properties (programs loaded once); RESULT lines give each property's exit code
